@@ -43,10 +43,10 @@ CHECKS = {
    text="Seeded search over editing sessions (full/incremental/multi-change/invalid edits over Unicode text with astral characters and CRLF, .wa and .wz documents, requests and cancels in flight), delivery schedules and goroutine interleavings of the real server. At every drain point and at the end, the server's text of each open document must equal the editor model's after all completely delivered notifications; invalid edits and half-delivered notifications must leave it unchanged; Run must return after EOF; no panic or deadlock. 3200 runs were replayed three times across GOMAXPROCS 1/2/4/16 under load with identical event-log digests. Evidence, not proof.",
    note="interleavings are explored at statement granularity in the rewritten packages; code that is not rewritten runs atomically; positions the LSP specification leaves ambiguous are not generated", ref="DESIGN.md section 4 C21"),
  "C25": dict(level="fault_enumeration", technique="deterministic simulation of the byte-stream transport: seeded packet sequences through the real SLIP/SLIPMUX writer and reader, complete enumeration of every single transient-empty-read position x kind per stream and of every single failing Write call of the sender (retry / give up), plus seeded multi-stall / bounded-chunk schedules; shrunk replayable tapes",
-   text="Every generated stream (written through one writer, as a sender does) is read back fault-free and under every single stall position and kind (complete for one fault per stream up to the size limit), x2/x3 repeated stalls and stall pairs, and after every single failing Write call of the sender (retry or give up: exactly the packets whose WritePacket returned nil must arrive), then under seeded multi-fault schedules; payloads and frame types must equal what was written and every packet must be delivered once the bytes are available. Streams are sampled, the single-fault space per stream is enumerated.",
+   text="Every generated stream (written through one writer, as a sender does) is read back fault-free and under every single stall position and kind (complete for one fault per stream up to the size limit), x2/x3 repeated stalls and stall pairs, and after every single failing Write call of the sender (retry or give up: exactly the packets whose WritePacket returned nil must arrive), then under seeded multi-fault schedules; payloads and frame types must equal what was written and every packet must be delivered once the bytes are available. SLIPMUX streams also carry line-noise frames with a reserved type (0x00, END, ESC): a reader may drop such a frame or deliver it as written, and must never deliver a packet that was not written. Streams are sampled, the single-fault space per stream is enumerated.",
    note="trusts the harness consumer loop (concatenate isPrefix fragments) as the documented reader protocol; transient reads limited to (0,nil),(0,EOF),(0,timeout); no concurrent writers", ref="DESIGN.md section 4 C25"),
  "C26": dict(level="fault_enumeration", technique="deterministic simulation of the byte stream under bufio: seeded messages of every registered type (fields filled by reflection from the tape) through the real DAP writer/reader/decoder, complete enumeration of every single split offset and every cut offset per stream, bounded-chunk reads, seeded short-read/empty-burst/cut schedules; shrunk replayable tapes",
-   text="Every generated stream is read back fault-free, with all reads bounded to 1/2/3/7 bytes, under every single split position and every cut offset (complete per stream up to the size limit), and under seeded multi-fault schedules. Decoded messages must have the written dynamic type and marshal to identical JSON; after a cut the reader must return the completely delivered messages and then an error, never a message that was not written. The constructor tables are also checked against the schema naming convention.",
+   text="Every generated stream is read back fault-free, with all reads bounded to 1/2/3/7 bytes, under every single split position and every cut offset (complete per stream up to the size limit), and under seeded multi-fault schedules. Decoded messages must have the written dynamic type and marshal to identical JSON; after a cut the reader must return the completely delivered messages and then an error, never a message that was not written. The constructor tables are also checked against the schema naming convention. One run in 24 is a size-edge run: an output event whose body is exactly 2^k-1, 2^k or 2^k+1 bytes (4 KiB to 8 MiB) followed by a small one; the reader may refuse a body only with an error whose stated limit is really below the body length.",
    note="equality is JSON-level (encoding/json on both sides) plus dynamic type; protocol defaults pre-set by a constructor are treated as the meaning of an omitted field; streams above the limit are only covered by the seeded schedules", ref="DESIGN.md section 4 C26"),
  "C27": dict(level="exploration", technique="deterministic simulation of Go map iteration order inside the compiler: every range-over-map on the compile path (75 sites in 49 files, AST-located, text-spliced copies injected with go build -overlay) yields its keys in an order chosen by the seeded schedule (reverse, rotate, swap, shuffle, per site or everywhere); WAT and wasm hashes compared between canonical and permuted orders, between repeats in one process and across worker processes; tape shrinking isolates the responsible range site",
    text="Seeded search over programs of the repository's corpus, configurations and map-order schedules. Any permutation is a legal Go execution, so a hash difference between the canonical and a permuted order is a real nondeterminism of the compiler; the minimised replay names the source position of the range statement whose order reaches the output. A tape-drawn history probe (compile P, Q, P with the canonical order), repeat compiles in one process and baselines across 16 processes cover state leaking between compiles and sources outside the seam. Evidence, not proof.",
